@@ -5,6 +5,9 @@ props = [json.loads(l) for l in open('/verif/properties.jsonl')]
 ids = [p['id'] for p in props]
 
 CHECKS = {
+ "C13": dict(category="exploration", technique="runtime monitor: byte-equality of all compiler outputs across re-runs under varied directory creation order (tmpfs/ext4), fresh threads and a fresh process (hash seeds)",
+   text="Corpus projects, single-file corpus programs and generated multi-package projects (well-typed, and ill-typed with several injected errors so that diagnostic order is exercised) are materialised R times with different file/directory creation orders on tmpfs plus one ext4 copy and observed in fresh threads and one fresh process: Go text, 8 stage dumps, ordered diagnostics, check/build interface and core files, interface hashes and linked Go must be byte-identical. The evidence counts the directory enumeration orders and probe-HashSet orders actually seen.",
+   design_ref="DESIGN.md 4/C13", note="enumeration orders are those tmpfs/ext4 produce for the creation orders tried; hash seeds are std RandomState's per-thread/process keys"),
  "C20": dict(category="exploration", technique="runtime monitor: crash hook over hover/completion queries at hostile positions + reference-model agreement (annotated types, declared member sets, insert-and-typecheck oracle)",
    text="Part A drives hover, dot and :: completion at token boundaries, after every '.'/'::', past line ends, past EOF and at u32::MAX over corpus files, editor-like prefixes and 1-3-edit mutations under the panic hook. Part B builds templated programs whose types and member sets are known by construction and asserts: hover on an annotated binder / its alias / its use reports the annotated type; every offered completion is a declared member with the typed prefix; inserting an offered field, self-only method or nullary variant type-checks (real typer as oracle).",
    design_ref="DESIGN.md 4/C20", note="hover agreement covers let binders, aliases and variable uses of 33 type shapes (not arbitrary sub-expressions); completeness of completions is observed, not required"),
